@@ -169,6 +169,7 @@ class World:
         self.requests = 0
         self._last_exc: BaseException | None = None
         self.step_budget = 0
+        self.request_wall_s = 60.0    # real-time watchdog: a HARNESS error, never a verdict
         boot.SECRETS.reseed(secrets_seed)
 
     # ------------------------------------------------------------------ lifecycle
@@ -286,6 +287,20 @@ class World:
         return resp
 
     def _call(self, environ, run_wsgi_app):
+        import signal
+
+        def _too_slow(signum, frame):
+            raise HarnessError(f"request exceeded {self.request_wall_s}s of wall time: "
+                               f"{environ.get('REQUEST_METHOD')} {environ.get('PATH_INFO')}?{environ.get('QUERY_STRING')}")
+        old = signal.signal(signal.SIGALRM, _too_slow)
+        signal.setitimer(signal.ITIMER_REAL, self.request_wall_s)
+        try:
+            return self._call_inner(environ, run_wsgi_app)
+        finally:
+            signal.setitimer(signal.ITIMER_REAL, 0)
+            signal.signal(signal.SIGALRM, old)
+
+    def _call_inner(self, environ, run_wsgi_app):
         budget = self.step_budget
         if budget:
             from . import stepbudget
